@@ -14,6 +14,9 @@ def classify(label, a, kind, rd):
         return "C01:recon-mismatch@is_16bit_pipeline=1,8bit-input"
     if int(a.get("over_bndry_blk", -1)) == 0 and streams.not_mult64(a) and kind.startswith(("decode-error", "recon-mismatch")):
         return "C01:corrupt-stream@over_bndry_blk=0,size-not-multiple-of-64"
+    if (int(a.get("w", 64)) % 128 == 64 and int(a.get("h", 64)) % 128 == 64 and int(a.get("enc_mode", 8)) <= 4 and int(a.get("enable_tpl_la", 1)) == 0
+            and int(a.get("w", 64)) > 128 and int(a.get("h", 64)) > 128 and kind.startswith(("decode-error", "recon-mismatch"))):
+        return "C01:corrupt-stream@128x128-superblocks,width-and-height-end-midway-through-a-superblock,preset<=4,tpl=0"
     return "C01:%s@%s" % (kind, cfg)
 
 
@@ -60,7 +63,7 @@ def case(item):
 
 
 def cases_for(tier):
-    cs = streams.bound01() + streams.sizes_lengths() + streams.big_tiles(tier == "thorough") + streams.tile_grids(tier == "thorough")
+    cs = streams.bound01() + streams.sizes_lengths() + streams.big_tiles(tier == "thorough") + streams.tile_grids(tier == "thorough") + streams.sb128_corners(tier == "thorough")
     if tier == "thorough":
         cs += streams.bound01(sizes=((66, 66),), contents=("noise", "flat"))
         cs += streams.cross_depth_sb_pipe_preset()
